@@ -132,6 +132,17 @@ def readNat : List Char → Nat → Bool → (Option Nat × List Char)
     else (if seen then some acc else none, c :: cs)
   | [], acc, seen => (if seen then some acc else none, [])
 
+/-- does the text after a `{` complete a repeat quantifier (`{m}`, `{m,}`, `{,n}`, `{m,n}`, `{,}`)?  CPython
+treats the brace as literal text otherwise (and `{}` is literal) -/
+def braceIsQuant (r : List Char) : Bool :=
+  match r with
+  | '}' :: _ => false
+  | _ =>
+    match readNat r 0 false with
+    | (_, '}' :: _) => true
+    | (_, ',' :: r') => (match readNat r' 0 false with | (_, '}' :: _) => true | _ => false)
+    | _ => false
+
 /-- escape outside a class -/
 def escapeAtom (c : Char) : Option Re :=
   if c == 'd' then some (.set ⟨false, [.digit]⟩)
@@ -233,8 +244,16 @@ def parseRep : Nat → List Char → ParseRes Re
                else if n ≤ 8 then quantTail (.cat (.pow a m) (.pow (.opt a) (n - m))) r''
                else .unsupported
              | (none, '}' :: r'') => if m ≤ 8 then quantTail (.cat (.pow a m) (.star a)) r'' else .unsupported
-             | _ => .unsupported)
-          | _ => .unsupported)
+             | (some _, _) => .unsupported
+             | (none, _) => .ok a rest)          -- `a{3,x`: not a quantifier, the brace is literal text
+          | (some _, _) => .ok a rest            -- `a{3x`: literal brace
+          | (none, ',' :: r') =>
+            (match readNat r' 0 false with
+             | (some n, '}' :: r'') => if n ≤ 8 then quantTail (.pow (.opt a) n) r'' else .unsupported   -- `{,n}`
+             | (none, '}' :: _) => .unsupported
+             | (some _, _) => .unsupported
+             | (none, _) => .ok a rest)
+          | (none, _) => .ok a rest)             -- `a{x`: literal brace
        | _ => .ok a rest)
     | .invalid => .invalid
     | .unsupported => .unsupported
@@ -272,7 +291,9 @@ def parseAtom : Nat → List Char → ParseRes Re
     | '\\' :: [] => .unsupported
     | c :: rest =>
       if c == '*' || c == '+' || c == '?' then .invalid        -- nothing to repeat
-      else if c == '^' || c == '$' || c == '{' || c == '}' || c == ']' || c == ')' || c == '|' then .unsupported
+      else if c == '^' || c == '$' || c == ')' || c == '|' then .unsupported
+      else if c == '{' && braceIsQuant rest then .invalid    -- a complete quantifier with nothing to repeat
+      -- otherwise `{`, `}` and `]` with nothing to open or close are ordinary characters
       else .ok (.set ⟨false, [.ch c]⟩) rest
 /-- after a quantifier: an optional lazy `?`; a further quantifier is outside the subset -/
 def quantTail (r : Re) : List Char → ParseRes Re
